@@ -514,7 +514,7 @@ def gen_exhaustive(nmax, faults_for=lambda n: FAULTS):
         ops = all_ops(n, faults_for(n))
         for _st, pre in states.items():
             for op in ops:
-                out.append(({"n": n, "asrt": 1, "ops": pre + [op]}, ("exh", "n=%d" % n, "op=" + op[0],
+                out.append(({"cls": "binary", "n": n, "asrt": 1, "ops": pre + [op]}, ("exh", "n=%d" % n, "op=" + op[0],
                             "fault=" + (op[3] if len(op) == 4 else "-"))))
     return out
 
@@ -561,42 +561,42 @@ def gen_histories(rng, tier, fault_rate=0.25):
     for _ in range(count):
         n = rng.randint(4, 8)
         length = rng.randint(1, 40)
-        out.append({"n": n, "asrt": 1, "ops": random_history(rng, n, length, fault_rate)})
+        out.append({"cls": "binary", "n": n, "asrt": 1, "ops": random_history(rng, n, length, fault_rate)})
     return out
 
 
 def corpus():
     c = []
     # D7 witness: a.children = (b, c); b.parent = None; d.left = b; del a.children  (tuple stored as-is before the fix)
-    c.append({"n": 4, "asrt": 1, "ops": [["T", 0, [1, 2], "none"], ["P", 1, None, "none"], ["L", 3, 1, "none"], ["D", 0]]})
-    c.append({"n": 4, "asrt": 1, "ops": [["T", 0, [1, 2], "none"], ["L", 3, 1, "none"], ["D", 0], ["T", 0, [], "none"],
+    c.append({"cls": "binary", "n": 4, "asrt": 1, "ops": [["T", 0, [1, 2], "none"], ["P", 1, None, "none"], ["L", 3, 1, "none"], ["D", 0]]})
+    c.append({"cls": "binary", "n": 4, "asrt": 1, "ops": [["T", 0, [1, 2], "none"], ["L", 3, 1, "none"], ["D", 0], ["T", 0, [], "none"],
                                           ["T", 3, [2, 1], "post"], ["T", 3, [2, 1], "none"], ["P", 2, None, "pre"], ["P", 2, 0, "none"]]})
     # D2 witness: `del b.children` must leave two empty slots and the node must still accept children
-    c.append({"n": 4, "asrt": 1, "ops": [["C", 0, [1, 2], "none"], ["D", 0], ["P", 3, 0, "none"], ["P", 1, 0, "none"],
+    c.append({"cls": "binary", "n": 4, "asrt": 1, "ops": [["C", 0, [1, 2], "none"], ["D", 0], ["P", 3, 0, "none"], ["P", 1, 0, "none"],
                                           ["P", 2, 0, "none"]]})
-    c.append({"n": 3, "asrt": 1, "ops": [["R", 0, 1, "none"], ["D", 0], ["L", 0, 2, "none"], ["D", 0], ["D", 0]]})
+    c.append({"cls": "binary", "n": 3, "asrt": 1, "ops": [["R", 0, 1, "none"], ["D", 0], ["L", 0, 2, "none"], ["D", 0], ["D", 0]]})
     # mutant "only un-parents the first orphan on rollback": failing children assignment with two orphans
     for f in ("pre", "post"):
-        c.append({"n": 3, "asrt": 1, "ops": [["C", 0, [1, 2], f], ["C", 0, [2, 1], f]]})
-        c.append({"n": 5, "asrt": 1, "ops": [["C", 0, [1, 2], "none"], ["C", 0, [3, 4], f], ["C", 0, [4, 3], f]]})
+        c.append({"cls": "binary", "n": 3, "asrt": 1, "ops": [["C", 0, [1, 2], f], ["C", 0, [2, 1], f]]})
+        c.append({"cls": "binary", "n": 5, "asrt": 1, "ops": [["C", 0, [1, 2], "none"], ["C", 0, [3, 4], f], ["C", 0, [4, 3], f]]})
     # children taken from another parent's slots (both, one, swapped), failing and succeeding
     for f in FAULTS:
-        c.append({"n": 5, "asrt": 1, "ops": [["C", 0, [1, 2], "none"], ["C", 3, [2, 1], f], ["C", 4, [1, None], f],
+        c.append({"cls": "binary", "n": 5, "asrt": 1, "ops": [["C", 0, [1, 2], "none"], ["C", 3, [2, 1], f], ["C", 4, [1, None], f],
                                               ["C", 4, [None, 2], f]]})
-        c.append({"n": 4, "asrt": 1, "ops": [["C", 0, [1, 2], "none"], ["L", 3, 2, f], ["R", 3, 1, f]]})
+        c.append({"cls": "binary", "n": 4, "asrt": 1, "ops": [["C", 0, [1, 2], "none"], ["L", 3, 2, f], ["R", 3, 1, f]]})
     # node.left = node.right (repeat), node.right = node.left
-    c.append({"n": 3, "asrt": 1, "ops": [["C", 0, [1, 2], "none"], ["L", 0, 2, "none"], ["R", 0, 1, "none"],
+    c.append({"cls": "binary", "n": 3, "asrt": 1, "ops": [["C", 0, [1, 2], "none"], ["L", 0, 2, "none"], ["R", 0, 1, "none"],
                                           ["C", 0, [1, 1], "none"]]})
     # attach by parent: left before right, refusal when full, re-attach to the same parent moves right -> left
-    c.append({"n": 4, "asrt": 1, "ops": [["P", 1, 0, "none"], ["P", 2, 0, "none"], ["P", 3, 0, "none"], ["P", 3, 0, "post"],
+    c.append({"cls": "binary", "n": 4, "asrt": 1, "ops": [["P", 1, 0, "none"], ["P", 2, 0, "none"], ["P", 3, 0, "none"], ["P", 3, 0, "post"],
                                           ["P", 1, None, "none"], ["P", 2, 0, "none"], ["P", 3, 0, "none"]]})
     # loops, self, non-node, wrong lengths
-    c.append({"n": 3, "asrt": 1, "ops": [["P", 1, 0, "none"], ["P", 2, 1, "none"], ["P", 0, 2, "none"], ["P", 0, 0, "none"],
+    c.append({"cls": "binary", "n": 3, "asrt": 1, "ops": [["P", 1, 0, "none"], ["P", 2, 1, "none"], ["P", 0, 2, "none"], ["P", 0, 0, "none"],
                                           ["C", 2, [0, None], "none"], ["C", 2, [2, None], "none"], ["C", 0, [3, None], "none"],
                                           ["C", 0, [1], "none"], ["C", 0, [1, 2, None], "none"], ["C", 0, None, "none"],
                                           ["C", 0, [], "none"], ["P", 1, 4, "none"], ["P", 1, 5, "none"]]})
     # sort: only with two children
-    c.append({"n": 3, "asrt": 1, "ops": [["P", 1, 0, "none"], ["S", 0, "s"], ["P", 2, 0, "none"], ["S", 0, "s"], ["S", 0, "k"],
+    c.append({"cls": "binary", "n": 3, "asrt": 1, "ops": [["P", 1, 0, "none"], ["S", 0, "s"], ["P", 2, 0, "none"], ["S", 0, "s"], ["S", 0, "k"],
                                           ["S", 0, "s"]]})
     return c
 
@@ -611,6 +611,39 @@ def gen(rng: random.Random, tier: str):
     for d in gen_histories(rng, tier, 0.25):
         cases.append(mk_case(d, ("random", "n=%d" % d["n"], "len>=20" if len(d["ops"]) >= 20 else "len<20")))
     return cases
+
+
+# ------------------------------------------------------------------ plug-ins for C02 / C20 (BinaryNode part)
+def gen_c02(rng, tier):
+    """cases for C02 (cls=binary): corpus + every reachable store on <=3 (quick) / <=4 (thorough) nodes x every
+    assignment (parent/children/left/right, every argument tuple) with every fault + random histories with
+    ~50 % faults; handler line format = C11's"""
+    cases = [mk_case(d, ("binary", "corpus")) for d in corpus()]
+    for d, tags in gen_exhaustive(3 if tier == "quick" else 4):
+        if d["ops"][-1][0] in ("P", "C", "T", "L", "R"):
+            cases.append(mk_case(d, ("binary",) + tuple(tags)))
+    for d in gen_histories(rng, tier, 0.5):
+        cases.append(mk_case(d, ("binary", "random")))
+    return cases
+
+
+def oracle_c02_case(case):
+    return oracle_c02(case.data)
+
+
+def nontrivial_c02(case):
+    """a raising call on a store that already has links"""
+    d = case.data
+    return len(d["ops"]) >= 2 and nontrivial(case)
+
+
+def accepted_subhistory(data):
+    """the ops of the history that the REAL code accepts with the checks on, in order (C20 domain);
+    rejected ops change nothing (C02), so dropping them leaves the accepted ones accepted"""
+    with _Assertions(True):
+        w = World(data["n"])
+        keep = [op for op in data["ops"] if w.apply(op)]
+    return dict(data, ops=keep)
 
 
 def nontrivial(case):
